@@ -57,8 +57,36 @@ def data(rng, tier, kinds=("tall", "wide", "square", "deficient", "decay")):
 REGS = ("default", "ridge", "lr", "precomputed", "precomputed_W")
 
 
-def make_regressor(reg):
+from sklearn.linear_model import LinearRegression as _LinearRegression  # noqa: E402
+from sklearn.linear_model import Ridge as _Ridge  # noqa: E402
+
+
+class _AbortableMixin:
+    """The next fit can be made to raise (class-level switch, so that clones made by the library are covered): simulates
+    a regression that is interrupted / rejected in the middle of a fit."""
+
+    _armed = [False]
+
+    def fit(self, X, y, sample_weight=None):
+        if _AbortableMixin._armed[0]:
+            _AbortableMixin._armed[0] = False
+            raise RuntimeError("regression aborted (simulated)")
+        return super().fit(X, y, sample_weight=sample_weight)
+
+
+class AbortableRidge(_AbortableMixin, _Ridge):
+    pass
+
+
+class AbortableLinearRegression(_AbortableMixin, _LinearRegression):
+    pass
+
+
+def make_regressor(reg, abort=False):
     from sklearn.linear_model import LinearRegression, Ridge
+
+    if abort:
+        Ridge, LinearRegression = AbortableRidge, AbortableLinearRegression
 
     if reg["kind"] == "default":
         return None
@@ -224,7 +252,7 @@ def fit_pcovr(j, label, X, Y, reg, regressor_obj=None, past=None, **kw):
     from . import forms
 
     Yfit, extra = fit_args(reg, X, Y)
-    robj = regressor_obj if regressor_obj is not None else make_regressor(reg)
+    robj = regressor_obj if regressor_obj is not None else make_regressor(reg, abort=past is not None)
     route = next(j.routes) if getattr(j, "routes", None) is not None else {}
     how = route.get("how", "ctor")
     est = forms.configure(PCovR, dict(kw, regressor=robj), how)
@@ -244,6 +272,12 @@ def fit_pcovr(j, label, X, Y, reg, regressor_obj=None, past=None, **kw):
         Xbuf[...] = X
         Ybuf[...] = np.asarray(Yfit, dtype=float)
         j.note("estimators_with_a_past")
+        r_ = est.regressor
+        if isinstance(r_, _AbortableMixin):
+            # a failure in the history: the first fit on the real data is aborted inside the user's regressor, then repeated
+            _AbortableMixin._armed[0] = True
+            forms.rejected(j, "fit aborted inside the regressor", est.fit, Xbuf, Ybuf, **extra)
+            _AbortableMixin._armed[0] = False
         j.lib(f"fit:{label}", est.fit, Xbuf, Ybuf, **extra)
         return est
     Xi = X
